@@ -66,6 +66,8 @@ impl Register {
         new_info: IngressInfo,
     ) -> Option<IngressInfo> {
         let mut lock = self.info.write().unwrap();
+        #[cfg(feature = "verif-hooks")]
+        crate::verif::point("ingress.update_info.locked");
 
         log::debug!("update_info for {id} with {new_info:?}");
 
@@ -98,6 +100,8 @@ impl Register {
     pub fn ids_for_parent(&self, parent: IngressId) -> Vec<IngressId> {
         let mut res = Vec::new();
         for (id, info) in self.info.read().unwrap().iter() {
+            #[cfg(feature = "verif-hooks")]
+            crate::verif::point("ingress.ids_for_parent.locked");
             if info.parent_ingress == Some(parent) {
                 res.push(*id);
             }
@@ -132,6 +136,8 @@ impl Register {
         query: &IngressInfo
     ) -> Option<(IngressId, IngressInfo)> {
         let lock = self.info.read().unwrap();
+        #[cfg(feature = "verif-hooks")]
+        crate::verif::point("ingress.find_existing_peer.locked");
         for (id, info) in lock.iter() {
             if info.parent_ingress.is_some()
                 && info.remote_addr.is_some()
@@ -158,6 +164,8 @@ impl Register {
         query: &IngressInfo
     ) -> Option<(IngressId, IngressInfo)> {
         let lock = self.info.read().unwrap();
+        #[cfg(feature = "verif-hooks")]
+        crate::verif::point("ingress.find_existing_bmp_router.locked");
         log::debug!("query: {query:?}");
         for (id, info) in lock.iter() {
             if info.parent_ingress.is_some()
@@ -171,6 +179,18 @@ impl Register {
         }
         log::debug!("no match in find_existing_bmp_router");
         None
+    }
+}
+
+#[cfg(feature = "verif-hooks")]
+impl Register {
+    /// verif-hooks only: a fresh register whose counter starts at `serial`
+    /// (lets a harness exercise the `u32` wrap-around of `register`).
+    pub fn verif_with_serial(serial: u32) -> Self {
+        Self {
+            serial: serial.into(),
+            info: RwLock::new(HashMap::new()),
+        }
     }
 }
 
